@@ -93,3 +93,39 @@ __CPROVER_requires(__CPROVER_is_fresh(self, sizeof(*self)))
 __CPROVER_assigns()                                                                                        /*@ob C03.introspection-assigns-nothing */
 __CPROVER_ensures(__CPROVER_return_value == self->m_active_state_ids)                                      /*@ob C03.get_active_state_ids-is-the-active-configuration */
 ;
+
+/* ---- all-states traversal (state_visitor_impl<..., AllStates=true>::visit): every state of states_to_traverse accepted once, list order ---- */
+#if UNIT_VISIT_ALL
+extern int g_all_next;
+void accept_all(type_t State, fsm_t* sm)
+__CPROVER_requires(State == g_all_next && 0 <= g_all_next && g_all_next < g_m)   /*@ob C03.all-states-visitor-accepts-every-state-once-in-list-order */
+__CPROVER_assigns(g_all_next)
+__CPROVER_ensures(g_all_next == __CPROVER_old(g_all_next) + 1)
+;
+void visit_all(fsm_t* sm)
+__CPROVER_requires(__CPROVER_is_fresh(sm, sizeof(*sm)) && 0 <= g_m && g_m <= 1000000 && g_all_next == 0 && (NEEDS_TRAVERSAL || g_m == 0))
+__CPROVER_assigns(g_all_next)
+__CPROVER_ensures(g_all_next == g_m)                                                                       /*@ob C03.all-states-visitor-accepts-every-state-once-in-list-order */
+;
+#endif
+/* ---- init_state_visitor::operator() (run once at construction of the root): every submachine gets the ROOT machine as its root
+   (C15: a copied / moved machine keeps its own; C07: exit points forward to the root) ---- */
+#if UNIT_INIT_VISITOR
+extern fsm_t* const g_root; extern const _Bool g_is_exit_pseudo, g_is_submachine; extern int g_inits, g_rootset;
+void exit_state_init(stref_t state)                     /* state.template init<RootSm>() */
+__CPROVER_requires(g_is_exit_pseudo && g_inits == 0)                              /*@ob C09.exit-pseudo-states-are-initialised-once-for-the-root */
+__CPROVER_assigns(g_inits)
+__CPROVER_ensures(g_inits == 1)
+;
+void set_root_of(stref_t state, fsm_t* root)            /* *state.m_root_sm = &m_root_sm */
+__CPROVER_requires(g_is_submachine && root == g_root && g_rootset == 0)          /*@ob C07,C15.every-submachine-gets-the-root-machine-as-its-root */
+__CPROVER_assigns(g_rootset)
+__CPROVER_ensures(g_rootset == 1)
+;
+typedef struct { fsm_t* m_root_sm; } initvis_t;
+void init_visitor_call(initvis_t* self, stref_t state)
+__CPROVER_requires(__CPROVER_is_fresh(self, sizeof(*self)) && self->m_root_sm == g_root && g_inits == 0 && g_rootset == 0)
+__CPROVER_assigns(g_inits, g_rootset)
+__CPROVER_ensures(g_inits == (g_is_exit_pseudo ? 1 : 0) && g_rootset == (g_is_submachine ? 1 : 0))        /*@ob C07,C15.every-submachine-gets-the-root-machine-as-its-root */
+;
+#endif
